@@ -471,6 +471,10 @@ def judge_case(ck, files, origin, asts, reply, real=None):
         ck.stat('comp.real_crash(C03)')
         return st
     mk = reply.get('kind')
+    if mk in ('outOfFuel', 'internal'):
+        # the model's recursion bound / an impossible state: never a verdict, always a defect of the model
+        ck.disagree('comp.compile', case, st[0], reply)
+        return st
     if mk is not None:
         mk = SAME_MESSAGE.get(mk, mk)
     if st[0] == 'ok':
@@ -558,6 +562,11 @@ def run_batch(ck, batch):
             prepared.append((files, origin, p[1], p[2]))
     reqs = [r for _f, _o, _a, r in prepared if r is not None]
     replies = iter(ck.driver(reqs))
+    # the hypothesis of the theorems (`compile fs = .ok api`) on every case: how often they speak
+    for hy in ck.driver([dict(r, op='comp.hyps') for r in reqs]):
+        ck.hist('comp.hyps.compile_ok', str(hy.get('compile_ok')))
+        if hy.get('compile_ok') is False and hy.get('kind') in ('outOfFuel', 'internal'):
+            ck.stat('comp.model_' + hy['kind'])
     out = []
     for files, origin, asts, req in prepared:
         if req is None:
